@@ -20,6 +20,7 @@ import (
 
 	"github.com/gogo/protobuf/proto"
 	"github.com/influxdata/influxdb/coordinator/internal"
+	"github.com/influxdata/influxql"
 	"pgregory.net/rapid"
 	"verifkit"
 )
@@ -167,6 +168,35 @@ func vC15Unsafe(frames []*vC15Frame) string {
 		}
 	}
 	return ""
+}
+
+// vC15Known returns the signature of a known finding that the stream would trigger ("" if none).
+// Such streams are excluded by construction from the main campaign and counted; each signature has
+// a directed test. VERIF_C15_KNOWN lists the signatures to exclude (set in checks.d/C15.json; empty
+// when every finding of this property has been repaired).
+func vC15Known(frames []*vC15Frame) string {
+	known := os.Getenv("VERIF_C15_KNOWN")
+	if known == "" {
+		return ""
+	}
+	for _, f := range frames {
+		if r, ok := f.req.(*MeasurementNamesRequest); ok && strings.Contains(known, "measurement-names-and-or-on-empty-index-panics") {
+			if vC15HasAndOr(r.Condition) {
+				return "measurement-names-and-or-on-empty-index-panics"
+			}
+		}
+	}
+	return ""
+}
+
+func vC15HasAndOr(e influxql.Expr) bool {
+	found := false
+	influxql.WalkFunc(e, func(n influxql.Node) {
+		if b, ok := n.(*influxql.BinaryExpr); ok && (b.Op == influxql.AND || b.Op == influxql.OR) {
+			found = true
+		}
+	})
+	return found
 }
 
 type vC15Verdict struct {
@@ -368,6 +398,10 @@ func TestVerifC15HandleConn(t *testing.T) {
 		if why := vC15Unsafe(frames); why != "" {
 			st.Class("skipped:"+why, 1)
 			rt.Skip(why)
+		}
+		if sig := vC15Known(frames); sig != "" {
+			st.Exclude(sig)
+			rt.Skip("known finding excluded: " + sig)
 		}
 		v := vC15Judge(b, stream, frames)
 		if v.sig != "" {
@@ -632,7 +666,7 @@ func FuzzVerifC15HandleConn(f *testing.F) {
 			return
 		}
 		frames, _ := vC15Walk(stream)
-		if vC15Unsafe(frames) != "" {
+		if vC15Unsafe(frames) != "" || vC15Known(frames) != "" {
 			return
 		}
 		for _, fr := range frames {
